@@ -14,7 +14,7 @@ namespace {
 struct Case {
     std::vector<uint8_t> bytes;
     int                  width{1};
-    int                  alias{0}; // 1: strings also hold look-alike code points (jm::look_alike_cps); absent in older replay files
+    int                  alias{0}; // 2: as 1, and two of the pointer targets are an Undefined value and a pointer to it; 1: strings also hold look-alike code points (jm::look_alike_cps); absent in older replay files
     std::vector<uint64_t> nums;    // enumeration cases: the document is the array of these doubles (bit patterns)
     unsigned              huge_a{0}, huge_b{0}, huge_esc{0}; // "huge-strings" cases: ["<huge_a units>", "<huge_b units>"], the second with an escape in it or not
 };
@@ -395,6 +395,18 @@ void run_width(const Case &c, pbt::Ctx &ctx) {
         b.targets.push_back(std::move(tv));
         b.target_models.push_back(tm);
     }
+    if (c.alias == 2) {
+        // one more target that is Undefined, and a pointer to it: a member that points there is left out like an Undefined member
+        std::unique_ptr<Value<Char_T>> und(new Value<Char_T>{});
+        jm::Node undef_model;
+        undef_model.k = jm::K::Undef;
+        b.targets.push_back(std::move(und));
+        b.target_models.push_back(undef_model);
+        std::unique_ptr<Value<Char_T>> hop(new Value<Char_T>{});
+        hop->SetPointerToValue(b.targets.back().get());
+        b.targets.push_back(std::move(hop));
+        b.target_models.push_back(undef_model);
+    }
     Value<Char_T> v;
     jm::Node      model;
     if (e.chance(50)) {
@@ -595,7 +607,7 @@ struct H {
     }
     static rc::Gen<Case> gen() {
         using namespace rc;
-        return gen::map(gen::tuple(gen::resize(300, gen::container<std::vector<uint8_t>>(gen::arbitrary<uint8_t>())), pbt::pick<int>({1, 1, 2, 4, 3}), pbt::pick<int>({0, 0, 1})),
+        return gen::map(gen::tuple(gen::resize(300, gen::container<std::vector<uint8_t>>(gen::arbitrary<uint8_t>())), pbt::pick<int>({1, 1, 2, 4, 3}), pbt::pick<int>({0, 1, 2})),
                         [](std::tuple<std::vector<uint8_t>, int, int> t) {
                             Case c;
                             c.bytes = std::get<0>(t);
@@ -610,7 +622,7 @@ struct H {
         static const int w[] = {1, 2, 4, 3};
         const uint8_t sel = f.sel();
         c.width = w[sel & 3];
-        c.alias = (sel >> 2) & 1;
+        c.alias = ((sel >> 2) & 1) + ((sel >> 2) & (sel >> 3) & 1);
         c.bytes = f.rest();
         return true;
     }
